@@ -477,7 +477,7 @@ func init() {
 			}
 			return fmt.Sprintf("up to %d global middleware, each registered through WithMiddleware or WithMiddlewareFor with a solver-chosen 8-bit scope mask (all 256 values), optionally together with DefaultOptions; up to 2 route middleware; all five handler kinds per configuration; Route.Handle / Route.HandleMiddleware; Update; a second route with other middleware; concurrent NewRoute (see threads)", g)
 		},
-		RequiredCovers: []string{"chains compared", "three or more global middleware"},
+		RequiredCovers: []string{"chains compared", "three or more global middleware", "concurrent NewRoute"},
 		Assumptions: []string{
 			"the console slog handler of DefaultOptions is a stub (its output is not modelled); Recovery and Logger themselves are executed",
 		},
@@ -517,8 +517,20 @@ func init() {
 	}
 }
 
-// threadJobs is filled in by the thread layer (empty when a property has no concurrent harness).
-func threadJobs(prop string) []*Job { return nil }
+// threadJobs lists the concurrent harnesses of a property.
+func threadJobs(prop string) []*Job {
+	switch prop {
+	case "C13":
+		var js []*Job
+		for g := 0; g <= 4; g++ {
+			js = append(js, &Job{Harness: "C13Conc", Params: map[string]int{"g": g}})
+		}
+		return js
+	case "C12":
+		return []*Job{{Harness: "C12Conc", Params: map[string]int{}}}
+	}
+	return nil
+}
 
 func init() {
 	props["C12"] = &PropSpec{
@@ -542,7 +554,7 @@ func init() {
 			}
 			return fmt.Sprintf("every sequence of k<=%d requests over 10 shapes (direct, ignored trailing slash, 404, 405, OPTIONS, redirect, manual Lookup+Clone+Close, CloneWith in a handler, Clone in a handler, tree replaced by Handle before the request) with distinct tokens in path parameter, query, request header, response header, status and body size; every sync.Pool.Get explores each pooled context; every getter read in each handler; clones re-read at the end", k)
 		},
-		RequiredCovers: []string{"Clone of a Lookup context", "CloneWith in a handler", "Clone taken in a handler"},
+		RequiredCovers: []string{"Clone of a Lookup context", "CloneWith in a handler", "Clone taken in a handler", "concurrent requests"},
 		Assumptions:    []string{"sync.Pool modelled as a bag from which Get may return any pooled object (all choices explored) or call New when empty", "concurrent mixes of requests are not decided by this check (see level_note)"},
 	}
 }
@@ -624,6 +636,46 @@ func init() {
 		Assumptions: []string{
 			"sync.Mutex modelled: Lock on a mutex held by the parked writer is reported as blocked-forever (deadlock violation); blocking inside the Go runtime, sync.Pool or atomics is outside the model",
 			"the parked writer and the reader are the same executor thread: no scheduling is involved, the claim is that no read path acquires the writer lock (or any lock the writer holds) for any input in the bounds",
+		},
+	}
+}
+
+func init() {
+	props["C05"] = &PropSpec{
+		ID: "C05",
+		Jobs: func(tier string) []*Job {
+			var js []*Job
+			sets := []int{0, 3, 10}
+			pre := 2
+			if tier == "thorough" {
+				sets = []int{0, 1, 3, 6, 7, 10, 11, 13, 17, 19, 22}
+				pre = 3
+			}
+			for _, s := range sets {
+				for sc := 0; sc < 6; sc++ {
+					js = append(js, &Job{Harness: "C05Conc", Params: map[string]int{"set": s, "scenario": sc, "preempt": pre}})
+				}
+			}
+			js = append(js, &Job{Harness: "C12Conc", Params: map[string]int{}})
+			for g := 0; g <= 4; g++ {
+				js = append(js, &Job{Harness: "C13Conc", Params: map[string]int{"g": g}})
+			}
+			return js
+		},
+		Bounds: func(tier string) string {
+			sets, pre := 3, 2
+			if tier == "thorough" {
+				sets, pre = 11, 3
+			}
+			return fmt.Sprintf("%d start routers x 6 thread programs (Handle||Handle on different routes from a 6-pattern pool; Handle||Handle on the same route; Update||Delete; two-route Updates || reader doing Has,Has,Iter.All,Has; Handle || ServeHTTP || ServeHTTP on routes sharing nodes; aborted write txn || reader) plus ServeHTTP||ServeHTTP with per-request tokens and NewRoute||NewRoute with 0..4 global middleware: every interleaving at synchronisation granularity (mutex Lock, atomic Load/Store, sync.Pool Get/Put, thread start/exit) with at most %d pre-emptive context switches; <= 3 threads besides the joiner; happens-before race monitor on every heap cell", sets, pre)
+		},
+		RequiredCovers: []string{"W||W different routes", "W||W same route", "Update||Delete", "txn||reader", "W||R||R", "abort||reader", "concurrent requests", "concurrent NewRoute"},
+		Assumptions: []string{
+			"threads switch only at synchronisation operations; schedules finer than that are covered by the DRF argument only because the happens-before race monitor is clean on every explored schedule",
+			"pre-emption bound as stated; more threads, more operations per thread and unbounded pre-emption are outside the claim",
+			"memory model assumed: Go's (mutex unlock->lock, atomic store->load, sync.Pool Put->Get of the same object, go statement and join synchronise); sync.Pool modelled as a LIFO bag (no per-P caches); hardware reorderings beyond the Go memory model are outside the claim",
+			"native replay of a schedule is not possible: race findings are confirmed with `go test -race` on the witness harness, assertion findings of concurrent harnesses by repeated native runs; a finding that cannot be confirmed is reported as inconclusive, never as a violation",
+			"linearizability is checked through the listed observable obligations (no lost update, exactly-one-winner, all-or-nothing snapshots, monotonic reads, aborted writes invisible), not against a general linearizability checker",
 		},
 	}
 }
